@@ -462,11 +462,12 @@ FASTOR_INLINE void data_setter(T *FASTOR_RESTRICT data, const SIMDVector<T,ABI> 
     data[idx+7*general_stride] = vec[7];
 }
 
-// 16 word scalar/SSE
+// 16 word SSE
 template<typename T, typename ABI, typename Int,
          typename std::enable_if<sizeof(T)==16 && internal::get_simd_vector_size<SIMDVector<T,ABI>>::bitsize==128,bool>::type=0>
-FASTOR_INLINE void data_setter(T *FASTOR_RESTRICT data, const SIMDVector<T,ABI> &vec, Int idx, int ) {
-    data[idx] = vec.value;
+FASTOR_INLINE void data_setter(T *FASTOR_RESTRICT data, const SIMDVector<T,ABI> &vec, Int idx, int general_stride) {
+    data[idx] = vec[0];
+    data[idx+general_stride] = vec[1];
 }
 // 16 word AVX
 template<typename T, typename ABI, typename Int,
@@ -474,6 +475,8 @@ template<typename T, typename ABI, typename Int,
 FASTOR_INLINE void data_setter(T *FASTOR_RESTRICT data, const SIMDVector<T,ABI> &vec, Int idx, int general_stride) {
     data[idx] = vec[0];
     data[idx+general_stride] = vec[1];
+    data[idx+2*general_stride] = vec[2];
+    data[idx+3*general_stride] = vec[3];
 }
 // 16 word AVX 512
 template<typename T, typename ABI, typename Int,
@@ -483,6 +486,10 @@ FASTOR_INLINE void data_setter(T *FASTOR_RESTRICT data, const SIMDVector<T,ABI> 
     data[idx+general_stride] = vec[1];
     data[idx+2*general_stride] = vec[2];
     data[idx+3*general_stride] = vec[3];
+    data[idx+4*general_stride] = vec[4];
+    data[idx+5*general_stride] = vec[5];
+    data[idx+6*general_stride] = vec[6];
+    data[idx+7*general_stride] = vec[7];
 }
 //----------------------------------------------------------------------------------------------------------------
 
